@@ -348,7 +348,14 @@ def gen_cases(rng, tier):
             coarse = len(st) > 6000 and quick
             # thorough: long streams (all protocols) are also replayed one byte at a time
             strided = coarse or (big and quick)
-            yield '%s %d %s %s' % (proto, cap, hx(st), '/'.join(partitions(rng, len(st), marks, strided, coarse)))
+            tok = proto
+            if proto == 'opc' and rng.random() < 0.7:
+                # the receiving side's configuration: callbacks for some channels only (channel 0 included
+                # or not), so registered and unregistered frames are mixed in one stream
+                pool = [0, 1, 255] + [rng.randrange(256) for _ in range(2)]
+                chs = sorted({c for c in pool if rng.random() < 0.5})
+                tok = 'opc@' + (','.join(str(c) for c in chs) if chs else '-')
+            yield '%s %d %s %s' % (tok, cap, hx(st), '/'.join(partitions(rng, len(st), marks, strided, coarse)))
     for i in range(300 if quick else 4000):
         big = (i % 40 == 39)
         st, marks, bad = gen_rpc(rng, big)
@@ -410,6 +417,8 @@ def nontrivial(payload, md):
     or a Receive call that stored at least one byte after at least two read() calls"""
     if payload.startswith('recv'):
         return md.get('n', '0') not in ('0',) and payload.split(' ')[3].count(',') >= 1
+    if payload.startswith('opc@'):
+        return 'm1' in md and md.get('s0') != md.get('s1') and len(payload) > 40
     if payload.startswith('rpc'):
         return not md.get('m0', '0/').startswith('0/') and md.get('s0') != md.get('s1')
     return md.get('m0', '-') != '-' and 'm1' in md and md.get('s0') != md.get('s1')
@@ -444,7 +453,7 @@ LEVEL_TEXT = ('Coq theorems over executable models of the code, for all five fra
               '(for RPC also whether the channel is closed) equals a reference framer written from the wire format, no '
               'store outside the receive buffer, the read loop terminates (c10_{usbpro,robe,opc,acn,rpc}_chunk_free, '
               'c10_*_bounds); any interleaving of data arrivals and callback invocations of a level-triggered poller '
-              'delivers the same (c10_schedule_*). The OPC theorems are stated for the linear-time machine the '
+              'delivers the same (c10_schedule_*). For OPC the set of channels with a registered callback is a parameter of model, reference framer and theorems (frames of unregistered channels are skipped and nothing read alongside them is lost: c10_opc_unregistered_skipped); the harness registers callbacks for generated subsets. The OPC theorems are stated for the linear-time machine the '
               'correspondence runs and rest on a proved simulation of the branch-for-branch model '
               '(c10_opc_fast_refines). Not covered by a theorem: RpcChannel buffer (re)allocation (C09) and the '
               'protobuf parser itself.')
